@@ -26,7 +26,7 @@ fuzz_target!(|data: &[u8]| {
         }
         ops.push(op);
     }
-    let case = BusCase { signs, ops, deep: false };
+    let case = BusCase { signs, ops, deep: false, past: vec![] };
     let mut st = Stats::new();
     if let Err(m) = check_bus(&case, &mut st) {
         common::violation("C14", "bus-history", serde_json::to_value(&case).unwrap(), m);
